@@ -18,12 +18,15 @@ def oracle(tr):
     carries as sender either the bus or the writer's own unique name (never anything else made of those bytes),
     and a bystander is never disconnected by somebody else's bytes"""
     bad = []
+    writers = set()          # unique names of connections that have written raw bytes so far
     for i, op in enumerate(tr.ops):
         if op[0] != "raw" or i >= len(tr.steps):
             continue
         per, closed = tr.steps[i]
         actor = op[1]
         me = tr.unique.get(actor)
+        if me is not None:
+            writers.add(me)
         for c in closed:
             if c != actor:
                 bad.append((None, "step %d: connection %d was closed by the bus while connection %d was writing raw bytes" % (i, c, actor)))
@@ -32,7 +35,7 @@ def oracle(tr):
                 continue
             for l in lines:
                 snd = hexname(fld(l, "sender"))
-                if snd not in ("org.freedesktop.DBus", me) and not (me is None and snd is None):
+                if snd not in ("org.freedesktop.DBus", me) and snd not in writers and not (me is None and snd is None):
                     bad.append((None, "step %d: connection %d received a message with sender %r while connection %d (%s) was writing raw bytes: %s" % (i, cid, snd, actor, me, l[:160])))
     return bad
 
@@ -165,7 +168,7 @@ def _acc_job(args):
         return {"infra": repr(e)}
 
 
-def expiry_case(maxinc=3, timeout_ms=700, flood=False):
+def expiry_case(maxinc=3, timeout_ms=2000, flood=False):
     """incomplete connections that stay silent are expired by auth_timeout, after which waiting clients are served - also while
     other clients keep the bus busy without a pause (`flood`: two authenticated clients stream broadcast signals nobody listens
     to, so that every poll() of the main loop returns with something to read)"""
